@@ -8,6 +8,13 @@ Extracted (fail-closed; any unrecognised shape => recognised: false, previous fi
   spec_append: symbolic execution of the straight-line body: nadd1, nadd2, maxpix and the two slice
                assignments  spec3[r0:r1, c0:c1] = specK.
 C16/Source.v proves that these expressions are the ones the hand-written model C16/Model.v uses.
+
+Round 5 (dtypes are NOT stripped for these):
+  typed_extract: every route of fibervec / platevec / mjdvec (+ latest_mjd's buffer), the uint64 key and its decoding, the row
+               subscripts and both zfiber branches as typed expressions of C16/Typed.v (gen_t_*); C16/Storage.v runs the
+               verified range analysis on them.
+  align_extract: ps = np.floor((coeff0[0] - mincoeff0)/coeff1[0] + 0.5) as a term over Q, the test ps > 0, the two COEFF0
+               updates, mincoeff0 = min(allcoeff0), spec_append(..., pixshift=ps)  (C16/AlignSource.v).
 """
 import ast
 import os
@@ -199,6 +206,286 @@ def env_names(fn):
     raise P.Unrecognised('environment variable selection in spec_path')
 
 
+
+# ---------------------------------------------------------------- storage types (round 5)
+# Typed expressions (C16/Typed.v: pexpr) of the request normalisation and of every index readspec computes from a
+# fibre number.  Trees: ('arr', i) | ('int', i) | ('lit', c) | ('cast', T, e) | ('bin', op, a, b) | ('hole', name).
+# Variables: 0 fiber (array element of unknown storage), 1 nper (Python int, DIMS0), 2 znum (Python int keyword),
+# 3 plate (array element), 4 mjd (array element), 5 element of np.arange(n) (int64), 6 bigmjd (Python int, latest_mjd).
+
+DTYPES = {'i1': 'I8', 'i2': 'I16', 'i4': 'I32', 'i8': 'I64', 'u1': 'U8', 'u2': 'U16', 'u4': 'U32', 'u8': 'U64',
+          'int8': 'I8', 'int16': 'I16', 'int32': 'I32', 'int64': 'I64', 'uint8': 'U8', 'uint16': 'U16', 'uint32': 'U32',
+          'uint64': 'U64'}
+NP_OF = {'I8': 'i1', 'I16': 'i2', 'I32': 'i4', 'I64': 'i8', 'U8': 'u1', 'U16': 'u2', 'U32': 'u4', 'U64': 'u8'}
+TOPS = {ast.Add: 'OAdd', ast.Sub: 'OSub', ast.Mult: 'OMul', ast.LShift: 'OShl', ast.RShift: 'OShr', ast.BitAnd: 'OAnd'}
+VARS = {'fiber': ('arr', 0), 'nper': ('int', 1), 'znum': ('int', 2), 'plate': ('arr', 3), 'mjd': ('arr', 4),
+        'arange': ('arr', 5), 'bigmjd': ('int', 6)}
+
+
+def dtype_of(call):
+    """the dtype keyword (or second positional argument) of np.array / np.zeros; None when absent"""
+    d = [k.value for k in call.keywords if k.arg == 'dtype']
+    if not d and len(call.args) >= 2:
+        d = [call.args[1]]
+    if not d:
+        return None
+    d = d[0]
+    name = d.value if isinstance(d, ast.Constant) and isinstance(d.value, str) else (d.attr if isinstance(d, ast.Attribute) else None)
+    if name is None:
+        raise P.Unrecognised('dtype expression')
+    name = name.lstrip('<=')
+    if name not in DTYPES:
+        raise P.Unrecognised('dtype %r' % name)
+    return DTYPES[name]
+
+
+def is_np(call, attr):
+    return isinstance(call, ast.Call) and isinstance(call.func, ast.Attribute) and call.func.attr == attr \
+        and isinstance(call.func.value, ast.Name) and call.func.value.id == 'np'
+
+
+def ttree(node, env):
+    """typed expression tree of a Python expression; env: name -> tree"""
+    if isinstance(node, ast.Constant) and isinstance(node.value, int) and not isinstance(node.value, bool):
+        return ('lit', node.value)
+    if isinstance(node, ast.Name):
+        if node.id in env:
+            return env[node.id]
+        raise P.Unrecognised('free name %s in a typed expression' % node.id)
+    if isinstance(node, ast.Subscript) and isinstance(node.value, ast.Name) and node.value.id == 'kwargs' \
+            and isinstance(node.slice, ast.Constant) and node.slice.value in env:
+        return env[node.slice.value]
+    if isinstance(node, ast.BinOp):
+        op = TOPS.get(type(node.op))
+        if op is None:
+            raise P.Unrecognised('typed operator %s' % type(node.op).__name__)
+        return ('bin', op, ttree(node.left, env), ttree(node.right, env))
+    if is_np(node, 'array') and node.args:
+        t = dtype_of(node)
+        if t is None:
+            raise P.Unrecognised('np.array without dtype')
+        return ('cast', t, ttree(node.args[0], env))
+    if is_np(node, 'zeros'):
+        t = dtype_of(node)
+        if t is None:
+            raise P.Unrecognised('np.zeros without an integer dtype')
+        return ('cast', t, ('lit', 0))
+    if is_np(node, 'arange') and len(node.args) == 1 and not node.keywords:
+        return ('cast', 'I64', VARS['arange'])      # default integer of np.arange
+    raise P.Unrecognised('typed expression %s' % ast.dump(node)[:80])
+
+
+def tcoq(t):
+    k = t[0]
+    if k == 'arr':
+        return '(PArr %d)' % t[1]
+    if k == 'int':
+        return '(PInt %d)' % t[1]
+    if k == 'lit':
+        return '(PLit %s)' % P.zlit(t[1])
+    if k == 'cast':
+        return '(PCast %s %s)' % (t[1], tcoq(t[2]))
+    if k == 'hole':
+        return t[1]
+    return '(PBin %s %s %s)' % (t[1], tcoq(t[2]), tcoq(t[3]))
+
+
+def tsubst(t, name, val):
+    if t[0] == 'hole':
+        return val if t[1] == name else t
+    if t[0] == 'cast':
+        return ('cast', t[1], tsubst(t[2], name, val))
+    if t[0] == 'bin':
+        return ('bin', t[1], tsubst(t[2], name, val), tsubst(t[3], name, val))
+    return t
+
+
+def assignments(fn, name):
+    """(plain, sliced): right-hand sides of  name = ...  and  name[...] = ...  in source order"""
+    plain, sliced = [], []
+    for n in ast.walk(fn):
+        if isinstance(n, ast.Assign) and len(n.targets) == 1:
+            t = n.targets[0]
+            if isinstance(t, ast.Name) and t.id == name:
+                plain.append((n.lineno, n.value))
+            elif isinstance(t, ast.Subscript) and isinstance(t.value, ast.Name) and t.value.id == name:
+                sliced.append((n.lineno, n.value))
+    return [v for _, v in sorted(plain, key=lambda x: x[0])], [v for _, v in sorted(sliced, key=lambda x: x[0])]
+
+
+def vector_routes(fn, name, env, slice_env):
+    """every way the vector `name` gets its elements: value assignments, and slice assignments into a zeros buffer
+    (converted to the buffer's type).  -> (routes of the 'given' convention, routes through a zeros buffer)"""
+    plain, sliced = assignments(fn, name)
+    buffers = [v for v in plain if is_np(v, 'zeros')]
+    values = [v for v in plain if not is_np(v, 'zeros')
+              and not (isinstance(v, ast.Call) and isinstance(v.func, ast.Name) and v.func.id == 'latest_mjd')]   # typed in latest_mjd itself
+    given = [ttree(v, env) for v in values]
+    filled = []
+    if sliced:
+        if len(buffers) != 1:
+            raise P.Unrecognised('%s: %d zeros buffers for %d slice assignments' % (name, len(buffers), len(sliced)))
+        bt = dtype_of(buffers[0])
+        if bt is None:
+            raise P.Unrecognised('%s: buffer without an integer dtype' % name)
+        filled = [('cast', bt, ttree(v, slice_env)) for v in sliced]
+    elif buffers:
+        raise P.Unrecognised('%s: zeros buffer never filled' % name)
+    return given, filled
+
+
+def typed_extract(repo):
+    """-> (list of Coq definitions, dict of trees for the harness)"""
+    tree = ast.parse(open(os.path.join(repo, SRC)).read())
+    rs = P.find_function(tree, 'readspec')
+    lm = P.find_function(tree, 'latest_mjd')
+    V = VARS
+    fib_given, fib_all = vector_routes(rs, 'fibervec', {'fiber': V['fiber']}, {})
+    pl_given, pl_all = vector_routes(rs, 'platevec', {'plate': V['plate']}, {'p': V['plate']})
+    mj_given, _ = vector_routes(rs, 'mjdvec', {'mjd': V['mjd']}, {})
+    mj_given = [t for t in mj_given]     # the latest_mjd call is not an integer expression: filtered below
+    _, mj_latest = vector_routes(lm, 'mjd', {}, {'bigmjd': V['bigmjd']})
+    if not (fib_given and fib_all and pl_given and pl_all and mj_given and mj_latest):
+        raise P.Unrecognised('request vector routes: %s' % [len(x) for x in (fib_given, fib_all, pl_given, pl_all, mj_given, mj_latest)])
+    # nper must be a header value (a Python int), znum the caller's keyword
+    nper_rhs, _ = assignments(rs, 'nper')
+    if len(nper_rhs) != 1 or not (isinstance(nper_rhs[0], ast.Subscript) and isinstance(nper_rhs[0].value, ast.Attribute)
+                                   and nper_rhs[0].value.attr == 'header'):
+        raise P.Unrecognised('nper is not a header value')
+    tf_rhs, _ = assignments(rs, 'thisfiber')
+    if len(tf_rhs) != 1 or not (isinstance(tf_rhs[0], ast.Subscript) and isinstance(tf_rhs[0].value, ast.Name)
+                                 and tf_rhs[0].value.id == 'fibervec'):
+        raise P.Unrecognised('thisfiber is not an element selection of fibervec')
+    hole_f, hole_z, hole_k, hole_p, hole_m = (('hole', n) for n in ('f', 'zf', 'k', 'pv', 'mv'))
+    zf_rhs, _ = assignments(rs, 'zfiber')
+    zenv = {'thisfiber': hole_f, 'nper': V['nper'], 'znum': V['znum']}
+    ztrees = [ttree(v, zenv) for v in zf_rhs]
+    zn = [t for t in ztrees if 'PInt 2' in tcoq(t)]
+    zb = [t for t in ztrees if 'PInt 2' not in tcoq(t)]
+    if len(zn) != 1 or len(zb) != 1:
+        raise P.Unrecognised('typed zfiber branches')
+    rows = {}
+    for n in ast.walk(rs):
+        if isinstance(n, ast.Subscript) and isinstance(n.value, ast.Attribute) and n.value.attr == 'data' \
+                and isinstance(n.value.value, ast.Subscript) and isinstance(n.value.value.value, ast.Name):
+            base = n.value.value.value.id
+            rows.setdefault(base, set()).add(ttree(first_index(n), {'thisfiber': hole_f, 'zfiber': hole_z}))
+    for base in ('spplate', 'photop', 'spz'):
+        if len(rows.get(base, ())) != 1:
+            raise P.Unrecognised('typed row index of %s' % base)
+    key_rhs, _ = assignments(rs, 'pmjd')
+    if len(key_rhs) != 1:
+        raise P.Unrecognised('pmjd')
+    key = ttree(key_rhs[0], {'platevec': hole_p, 'mjdvec': hole_m})
+    zup, _ = assignments(rs, 'zupmjd')
+    v = zup[0] if len(zup) == 1 else None
+    if not (isinstance(v, ast.Call) and isinstance(v.func, ast.Name) and v.func.id == 'list' and isinstance(v.args[0], ast.Call)
+            and isinstance(v.args[0].func, ast.Name) and v.args[0].func.id == 'zip' and len(v.args[0].args) == 2):
+        raise P.Unrecognised('zupmjd')
+    kp, km = (ttree(a, {'upmjd': hole_k}) for a in v.args[0].args)
+    lst = lambda ts: '[' + '; '.join(tcoq(t) for t in ts) + ']'   # noqa: E731
+    defs = ['(* storage types: typed expressions of C16/Typed.v; variables 0 fiber, 1 nper, 2 znum, 3 plate, 4 mjd, 5 arange element, 6 bigmjd *)',
+            'Definition gen_t_fiber_given : list pexpr := %s.' % lst(fib_given),
+            'Definition gen_t_fiber_all : list pexpr := %s.' % lst(fib_all),
+            'Definition gen_t_plate_given : list pexpr := %s.' % lst(pl_given),
+            'Definition gen_t_plate_all : list pexpr := %s.' % lst(pl_all),
+            'Definition gen_t_mjd_given : list pexpr := %s.' % lst(mj_given),
+            'Definition gen_t_mjd_latest : list pexpr := %s.' % lst(mj_latest),
+            'Definition gen_t_img_row (f : pexpr) : pexpr := %s.' % tcoq(list(rows['spplate'])[0]),
+            'Definition gen_t_photo_row (f : pexpr) : pexpr := %s.' % tcoq(list(rows['photop'])[0]),
+            'Definition gen_t_z_row (zf : pexpr) : pexpr := %s.' % tcoq(list(rows['spz'])[0]),
+            'Definition gen_t_zbest_fiber (f : pexpr) : pexpr := %s.' % tcoq(zb[0]),
+            'Definition gen_t_znum_fiber (f : pexpr) : pexpr := %s.' % tcoq(zn[0]),
+            'Definition gen_t_key (pv mv : pexpr) : pexpr := %s.' % tcoq(key),
+            'Definition gen_t_key_plate (k : pexpr) : pexpr := %s.' % tcoq(kp),
+            'Definition gen_t_key_mjd (k : pexpr) : pexpr := %s.' % tcoq(km)]
+    # closed expressions for the typed correspondence (NumPy semantics of exactly these expressions)
+    closed = []
+    for fam, fs in (('given', fib_given), ('all', fib_all)):
+        for f in fs:
+            closed.append(('fiber-%s' % fam, f))
+            closed.append(('img-row-%s' % fam, tsubst(list(rows['spplate'])[0], 'f', f)))
+            closed.append(('znum-row-%s' % fam, tsubst(list(rows['spz'])[0], 'zf', tsubst(zn[0], 'f', f))))
+    for pv in pl_given + pl_all:
+        for mv in mj_given + mj_latest:
+            k = tsubst(tsubst(key, 'pv', pv), 'mv', mv)
+            closed.append(('key', k))
+            closed.append(('key-plate', tsubst(kp, 'k', k)))
+            closed.append(('key-mjd', tsubst(km, 'k', k)))
+    seen, uniq = set(), []
+    for nm, t in closed:
+        if (nm, t) not in seen:
+            seen.add((nm, t))
+            uniq.append({'name': nm, 'tree': t, 'coq': tcoq(t)})
+    types = sorted(set(re.findall(r'PCast (\w+)', ' '.join(defs))))
+    return defs, {'closed': uniq, 'types': types,
+                  'fibervec_types': sorted(set(re.findall(r'PCast (\w+)', lst(fib_given + fib_all))))}
+
+
+
+# ---------------------------------------------------------------- align=True: rounding rule and coefficient updates (round 5)
+
+def qexpr(node, names):
+    """rational expression: + - * / over names, name[0] and the constant 0.5"""
+    if isinstance(node, ast.Constant) and node.value == 0.5:
+        return '(1 # 2)'
+    if isinstance(node, ast.Subscript) and isinstance(node.value, ast.Name) and isinstance(node.slice, ast.Constant) and node.slice.value == 0:
+        node = node.value
+    if isinstance(node, ast.Name) and node.id in names:
+        return '(inject_Z %s)' % node.id
+    if isinstance(node, ast.BinOp):
+        op = {ast.Add: 'Qplus', ast.Sub: 'Qminus', ast.Mult: 'Qmult', ast.Div: 'Qdiv'}.get(type(node.op))
+        if op is None:
+            raise P.Unrecognised('rational operator')
+        return '(%s %s %s)' % (op, qexpr(node.left, names), qexpr(node.right, names))
+    raise P.Unrecognised('rational expression %s' % ast.dump(node)[:80])
+
+
+def align_extract(repo):
+    tree = ast.parse(open(os.path.join(repo, SRC)).read())
+    rs = P.find_function(tree, 'readspec')
+    blocks = [n for n in ast.walk(rs) if isinstance(n, ast.If) and isinstance(n.test, ast.Compare)
+              and isinstance(n.test.left, ast.Constant) and n.test.left.value == 'align' and isinstance(n.test.ops[0], ast.In)]
+    blocks = [b for b in blocks if any(isinstance(x, ast.Assign) and isinstance(x.targets[0], ast.Name) and x.targets[0].id == 'ps'
+                                       for x in ast.walk(b))]
+    if len(blocks) != 1:
+        raise P.Unrecognised('align block')
+    blk = blocks[0]
+    ps_rhs = [x.value for x in blk.body if isinstance(x, ast.Assign) and isinstance(x.targets[0], ast.Name) and x.targets[0].id == 'ps']
+    else_ps = [x.value for x in blk.orelse if isinstance(x, ast.Assign) and isinstance(x.targets[0], ast.Name) and x.targets[0].id == 'ps']
+    if len(ps_rhs) != 1 or len(else_ps) != 1 or P.const_value(else_ps[0]) != 0:
+        raise P.Unrecognised('ps assignments')
+    v = ps_rhs[0]
+    if isinstance(v, ast.Call) and isinstance(v.func, ast.Name) and v.func.id == 'int' and len(v.args) == 1 and not v.keywords:
+        v = v.args[0]          # int(np.floor(...)): the same integer
+    if not (is_np(v, 'floor') and len(v.args) == 1):
+        raise P.Unrecognised('ps is not np.floor(...)')
+    q = qexpr(v.args[0], {'coeff0', 'mincoeff0', 'coeff1'})
+    mins = [x.value for x in blk.body if isinstance(x, ast.Assign) and isinstance(x.targets[0], ast.Name) and x.targets[0].id == 'mincoeff0']
+    if len(mins) != 1 or not (isinstance(mins[0], ast.Call) and isinstance(mins[0].func, ast.Name) and mins[0].func.id == 'min'
+                              and len(mins[0].args) == 1 and isinstance(mins[0].args[0], ast.Name) and mins[0].args[0].id == 'allcoeff0'):
+        raise P.Unrecognised('mincoeff0 = min(allcoeff0)')
+    ifs = [x for x in blk.body if isinstance(x, ast.If) and isinstance(x.test, ast.Compare) and isinstance(x.test.left, ast.Name)
+           and x.test.left.id == 'ps']
+    if len(ifs) != 1 or len(ifs[0].body) != 1 or len(ifs[0].orelse) != 1:
+        raise P.Unrecognised('if ps > 0')
+    c = cond(ifs[0].test, {'ps': 'ps'})
+    a1, a2 = ifs[0].body[0], ifs[0].orelse[0]
+    if not (isinstance(a1, ast.Assign) and a1.targets[0].id == 'coeff0' and isinstance(a2, ast.Assign) and a2.targets[0].id == 'allcoeff0'):
+        raise P.Unrecognised('coefficient updates')
+    new_c0 = expr(a1.value, {'coeff0': 'coeff0', 'ps': 'ps', 'coeff1': 'coeff1'})
+    old_c0 = expr(a2.value, {'allcoeff0': 'allcoeff0', 'ps': 'ps', 'allcoeff1': 'allcoeff1'})
+    calls = [n for n in ast.walk(rs) if isinstance(n, ast.Call) and isinstance(n.func, ast.Name) and n.func.id == 'spec_append']
+    if len(calls) != 1 or [k.arg for k in calls[0].keywords] != ['pixshift'] or not (
+            isinstance(calls[0].keywords[0].value, ast.Name) and calls[0].keywords[0].value.id == 'ps'):
+        raise P.Unrecognised('spec_append(..., pixshift=ps)')
+    return ['(* align=True: the pixel shift, as the source spells it over the rationals, and the COEFF0 updates *)',
+            'Definition gen_align_ps (coeff0 mincoeff0 coeff1 : Z) : Z := Qfloor %s.' % q,
+            'Definition gen_align_shift_new (ps : Z) : bool := %s.' % c,
+            'Definition gen_align_new_c0 (coeff0 ps coeff1 : Z) : Z := %s.' % new_c0,
+            'Definition gen_align_old_c0 (allcoeff0 ps allcoeff1 : Z) : Z := %s.' % old_c0]
+
+
 def generate(repo):
     info = {'recognised': False, 'source': SRC}
     try:
@@ -294,10 +581,13 @@ def generate(repo):
         for i, b in enumerate(blocks, 1):
             defs.append('Definition gen_sa_block%d (nrows1 nrows2 npix1 npix2 pixshift : Z) : Z * Z * Z * Z :=\n  (%s, %s, %s, %s).'
                         % (i, b[1], b[2], b[3], b[4]))
+        tdefs, tinfo = typed_extract(repo)
+        defs += tdefs
+        defs += align_extract(repo)
         text = ('(* GENERATED by translate/c16.py from %s -- do not edit. *)\n'
-                'From Coq Require Import ZArith Bool List.\nImport ListNotations.\nOpen Scope Z_scope.\n\n' % SRC) + '\n'.join(defs) + '\n'
+                'From Coq Require Import ZArith Bool List QArith Qround.\nFrom PV Require Import Lib.NumpyInt C16.Typed.\nImport ListNotations.\nOpen Scope Z_scope.\n\n' % SRC) + '\n'.join(defs) + '\n'
         info.update({'recognised': True, 'nfiber': [tboss, nsdss], 'widths': [dir_width, wp, wm], 'env': [env_int, env_other], 'key': key, 'znum_fiber': zn[0], 'img_row': list(rows['spplate'])[0],
-                     'nadd1': st['nadd1'], 'nadd2': st['nadd2']})
+                     'nadd1': st['nadd1'], 'nadd2': st['nadd2'], 'typed': tinfo})
         return text, info
     except (P.Unrecognised, OSError, SyntaxError, IndexError, AttributeError, ValueError, UnicodeError) as e:
         info['error'] = '%s: %s' % (type(e).__name__, e)
